@@ -462,8 +462,15 @@ class Runner:
             tol = rtol * max(scale, 1e-30)
             if g["kind"] == "shampoo" and (name.startswith("root") or name in ("param", "mom")):
                 # conditioning of the inverse root (rank-deficient factors with a small epsilon and a large exponent put 1e-8-level
-                # noise of the eigendecomposition into the direction); the factor itself is compared tightly
-                tol = 1e-6 * max(scale, 1e-30)
+                # noise of the eigendecomposition into the direction); the factor itself is compared tightly.  The noise grows with the
+                # condition number of the stored root itself ((lambda_max + eps) / (lambda_min + eps)) ^ exponent: 4e13 for a rank-1
+                # factor of gradients x 1e3 with eps 0.1 and exponent 1.82), so the tolerance does too
+                cr = 1.0
+                for rk in blk.root.values():
+                    if rk.numel() > 1 and bool(torch.isfinite(rk).all()) and bool(rk.any()):
+                        ev = torch.linalg.eigvalsh((rk + rk.T) / 2).abs()
+                        cr = max(cr, float(ev.max() / max(float(ev.min()), 1e-300)))
+                tol = max(1e-6, min(1.0, 1e-14 * cr)) * max(scale, 1e-30)
             if g.get("method") in ("newton", "higher"):
                 # iterative solvers stop at their own tolerance (1e-6 / 1e-8 residual); with coupled weight decay the parameter feeds
                 # back into the gradient, hence into every accumulator
